@@ -225,8 +225,10 @@ def _simplifier(ctx, rep):
 
 
 def check_C05(ctx, rep):
+    small_models3.check_simplify_models(ctx, rep)
+    rep.clauses_decided.append('regexp_simplify keeps the words up to length 3 on 47 model expressions, twelve of them over the letters 0 and 1 whose printed form coincides with the constants (M38, finite model)')
     small_models2.check_regexp_matcher(ctx, rep, ctx.prog.func('regexp_algorithms.regexp_accepts_word'))
-    rep.clauses_decided.append('regexp_accepts_word answers membership in the denoted language on 35 model expressions (nested stars, stars over expressions matching the empty word, concatenations with an empty-matching side, splits whose first match is a dead end) and all words over {a, b} up to length 3 (M22, finite model)')
+    rep.clauses_decided.append('regexp_accepts_word answers membership in the denoted language on 47 model expressions (nested stars, stars over expressions matching the empty word, concatenations with an empty-matching side, splits whose first match is a dead end) and all words over {a, b} up to length 3 (M22, finite model)')
     rep.clauses_decided += ['every rewrite path of regexp_simplify is a Kleene-algebra identity, never grows the expression and is applied after simplifying every child (M3, decided exactly)',
                             'matcher: concatenation splits k in [0,|w|], star takes a non-empty prefix and recurses on the same node, base cases, sum (M3m)',
                             'all six constructors handled in every structural recursion over Regexp (R-DISPATCH a)',
@@ -250,9 +252,11 @@ def check_C05(ctx, rep):
 
 
 def check_C06(ctx, rep):
+    small_models3.check_simplify_models(ctx, rep)
+    rep.clauses_decided.append('regexp_simplify keeps the words up to length 3 on 47 model expressions, twelve of them over the letters 0 and 1 whose printed form coincides with the constants (M38, finite model)')
     small_models2.check_regexp_to_nfa(ctx, rep, ctx.prog.func('regexp_algorithms.regexp_to_nfa'))
     small_models2.check_dfa_to_regexp(ctx, rep, ctx.prog.func('regexp_algorithms.dfa_to_regexp'))
-    rep.clauses_decided.append('regexp_to_nfa returns a valid NFA with exactly the denoted words up to length 3 on 35 model expressions (M26), dfa_to_regexp an expression with exactly the accepted words up to length 4 (3) on thirteen model DFAs, two with three parallel symbols, under two elimination orders (M27); finite models')
+    rep.clauses_decided.append('regexp_to_nfa returns a valid NFA with exactly the denoted words up to length 3 on 47 model expressions (M26), dfa_to_regexp an expression with exactly the accepted words up to length 4 (3) on thirteen model DFAs, two with three parallel symbols, under two elimination orders (M27); finite models')
     for fn0, op0 in (('nfa_union', 'union'), ('nfa_concatenation', 'concat'), ('nfa_repetition', 'star')):
         small_models2.check_nfa_operation(ctx, rep, ctx.prog.func('nfa_algorithms.' + fn0), op0)
     rep.clauses_decided.append('nfa_union / nfa_concatenation / nfa_repetition return a valid NFA with exactly the words up to length 4 of the union / concatenation / iteration on model NFAs with several final states that have different ways on, a final initial state, colliding state names and different epsilon symbols; operands untouched (M17, finite model)')
@@ -289,10 +293,12 @@ def check_C06(ctx, rep):
 
 
 def check_C07(ctx, rep):
+    small_models3.check_is_chomsky(ctx, rep)
+    rep.clauses_decided.append('CFG.is_chomsky answers True exactly for the grammars in Chomsky normal form on 18 model grammars: right-hand sides of every shape up to length four, the offending rule first / in the middle / last, epsilon rules of other variables before and after the one of the start variable, the start variable on a right-hand side (M37, finite model)')
     small_models2.check_cfg_membership(ctx, rep, ctx.prog.func('cfg_algorithms.cfg_accepts_word'))
-    rep.clauses_decided.append('cfg_accepts_word answers True exactly when the start variable derives the word on eight general model grammars (epsilon rules, nullable chains, unit cycles, long right-hand sides) and all words up to length 3, the on-the-fly conversion included; the grammar handed in is untouched (M32, finite model)')
+    rep.clauses_decided.append('cfg_accepts_word answers True exactly when the start variable derives the word on eleven general model grammars (epsilon rules, nullable chains, unit cycles, long right-hand sides) and all words up to length 3, the on-the-fly conversion included; the grammar handed in is untouched (M32, finite model)')
     small_models2.check_chomsky_phases(ctx, rep, [ctx.prog.func('cfg_algorithms.' + n0) for n0 in small_models2._PHASES])
-    rep.clauses_decided.append('the five phases of the Chomsky conversion, applied in order to eight model grammars (epsilon rules, nullable chains, unit cycles, long right-hand sides, terminals inside them) under two iteration orders of sets, each keep the words up to length 3 and the declared variables, and the final grammar is in Chomsky normal form (M28, finite model)')
+    rep.clauses_decided.append('the five phases of the Chomsky conversion, applied in order to eleven model grammars (epsilon rules, nullable chains, unit cycles, long right-hand sides, terminals inside them) under two iteration orders of sets, each keep the words up to length 3 and the declared variables, and the final grammar is in Chomsky normal form (M28, finite model)')
     small_models2.check_cyk(ctx, rep, ctx.prog.func('cfg_algorithms.cfg_cyk_matrix'), ctx.prog.func('cfg_algorithms.cfg_accepts_word'))
     rep.clauses_decided.append('on five model grammars in Chomsky normal form and all words up to length 4 (3) every CYK cell holds exactly the variables that derive the subword and the membership test agrees with derivability (M23, finite model)')
     small_models2.check_unit_elimination(ctx, rep, ctx.prog.func('cfg_algorithms.cfg_eliminate_unit_rules_in_place'))
@@ -353,8 +359,12 @@ def _conversion_kernel(ctx, rep):
 
 
 def check_C08(ctx, rep):
+    small_models2.check_cfg_membership(ctx, rep, ctx.prog.func('cfg_algorithms.cfg_accepts_word'))
+    rep.clauses_decided.append('the whole conversion cfg_to_chomsky, as cfg_accepts_word applies it on the fly, yields a grammar the CYK recogniser accepts as Chomsky normal form and with the same words up to length 3 on eleven general model grammars, among them one with the empty language (M32, finite model)')
+    small_models3.check_is_chomsky(ctx, rep)
+    rep.clauses_decided.append('CFG.is_chomsky answers True exactly for the grammars in Chomsky normal form on 18 model grammars: right-hand sides of every shape up to length four, the offending rule first / in the middle / last, epsilon rules of other variables before and after the one of the start variable, the start variable on a right-hand side (M37, finite model)')
     small_models2.check_chomsky_phases(ctx, rep, [ctx.prog.func('cfg_algorithms.' + n0) for n0 in small_models2._PHASES])
-    rep.clauses_decided.append('the five phases of the Chomsky conversion, applied in order to eight model grammars (epsilon rules, nullable chains, unit cycles, long right-hand sides, terminals inside them) under two iteration orders of sets, each keep the words up to length 3 and the declared variables, and the final grammar is in Chomsky normal form (M28, finite model)')
+    rep.clauses_decided.append('the five phases of the Chomsky conversion, applied in order to eleven model grammars (epsilon rules, nullable chains, unit cycles, long right-hand sides, terminals inside them) under two iteration orders of sets, each keep the words up to length 3 and the declared variables, and the final grammar is in Chomsky normal form (M28, finite model)')
     small_models2.check_unit_elimination(ctx, rep, ctx.prog.func('cfg_algorithms.cfg_eliminate_unit_rules_in_place'))
     rep.clauses_decided.append('cfg_eliminate_unit_rules_in_place, on six model grammars (unit cycles with an exit, a start variable that only reaches unit rules, a self-loop) under two iteration orders of the variable set, leaves no unit rule and keeps the words up to length 3 (M16, finite model)')
     small_models2.check_nullable(ctx, rep, ctx.prog.func('cfg_algorithms.cfg_nullable_variables'))
@@ -403,7 +413,7 @@ def _pda_step_models(ctx, rep):
 
 def check_C10(ctx, rep):
     small_models2.check_pda_to_cfg(ctx, rep, ctx.prog.func('pda_algorithms.pda_to_cfg'))
-    rep.clauses_decided.append('pda_to_cfg returns a grammar whose start variable derives exactly the accepted words up to length 3 resp. 2 on eight model PDAs (replacing and stack-neutral moves, symbols left on the stack, several final states) under two iteration orders of sets; the PDA handed in is untouched (M33, finite model)')
+    rep.clauses_decided.append('pda_to_cfg returns a grammar whose start variable derives exactly the accepted words up to length 3 resp. 2 on nine model PDAs (replacing and stack-neutral moves, symbols left on the stack, several final states) under two iteration orders of sets; the PDA handed in is untouched (M33, finite model)')
     rep.clauses_decided += ['pure twins deep-copy and call the in-place normal form (R-TWIN)', 'input PDA not modified (R-EFFECT)',
                             'states, bottom marker and dummy symbol are fresh (R-FRESH)',
                             'push/pop case split: for all (u,v) over {eps,x,y}^2 one branch is taken and the inserted chain pops u / pushes v with push-or-pop moves only (M5)',
@@ -448,6 +458,8 @@ def check_C11(ctx, rep):
 
 
 def check_C12(ctx, rep):
+    small_models3.check_is_chomsky(ctx, rep)
+    rep.clauses_decided.append('CFG.is_chomsky answers True exactly for the grammars in Chomsky normal form on 18 model grammars: right-hand sides of every shape up to length four, the offending rule first / in the middle / last, epsilon rules of other variables before and after the one of the start variable, the start variable on a right-hand side (M37, finite model)')
     small_models2.check_accepts_rejects_checker(ctx, rep, ctx.prog.func('notebook.check_automaton_accepts_rejects'))
     rep.clauses_decided.append('check_automaton_accepts_rejects prints OK exactly when a model DFA accepts every word of the first list and rejects every word of the second, on 225 pairs of lists with the empty word in every position (K12, finite model)')
     small_models2.check_subset_name_readers(ctx, rep, ctx.prog.func('notebook_nfa2dfa.check_nfa_to_dfa_answer'), ctx.prog.func('dfa.print_state_set'))
@@ -509,6 +521,8 @@ STATE_NAME_CHAINS = [
 
 
 def check_C13(ctx, rep):
+    small_models2.check_chomsky_phases(ctx, rep, [ctx.prog.func('cfg_algorithms.' + n0) for n0 in small_models2._PHASES], first_rule=True)
+    rep.clauses_decided.append('after every phase of the Chomsky conversion the first rule belongs to the start variable on eleven model grammars under two iteration orders of sets -- the simple text format, in which the answer of each phase is printed, has no start declaration and its reader takes the variable of the first rule (M28 with the first-rule clause, finite model)')
     small_models3.check_text_roundtrip(ctx, rep)
     rep.clauses_decided.append('the text printed for a model reference automaton is read back as that automaton by the parser the checkers use (M35, finite model)')
     small_models2.check_subset_name_readers(ctx, rep, ctx.prog.func('notebook_nfa2dfa.check_nfa_to_dfa_answer'), ctx.prog.func('dfa.print_state_set'))
@@ -718,6 +732,8 @@ def check_C18(ctx, rep):
 
 
 def check_C19(ctx, rep):
+    small_models3.check_simplify_models(ctx, rep)
+    rep.clauses_decided.append('regexp_simplify keeps the words up to length 3 on 47 model expressions, twelve of them over the letters 0 and 1 whose printed form coincides with the constants (M38, finite model)')
     small_models2.check_unit_elimination(ctx, rep, ctx.prog.func('cfg_algorithms.cfg_eliminate_unit_rules_in_place'))
     rep.clauses_decided.append('cfg_eliminate_unit_rules_in_place, on six model grammars (unit cycles with an exit, a start variable that only reaches unit rules, a self-loop) under two iteration orders of the variable set, leaves no unit rule and keeps the words up to length 3 (M16, finite model)')
     rep.clauses_decided += ['no value-returning operation mutates an operand at any depth (R-EFFECT a)',
@@ -761,7 +777,7 @@ def check_C19(ctx, rep):
 def check_C20(ctx, rep):
     for sp0 in ('dfa_algorithms.dfa_isomorphic', 'dfa_algorithms.dfa_isomorphic1'):
         small_models2.check_isomorphism(ctx, rep, ctx.prog.func(sp0))
-    rep.clauses_decided.append('both isomorphism tests answer True exactly when a bijection of the reachable states exists on 14 model pairs, among them a state with two partners in either direction (M14, finite model)')
+    rep.clauses_decided.append('both isomorphism tests answer True exactly when a bijection of the reachable states exists on 19 model pairs, among them lassos of equal size and language, a state with two partners in either direction (M14, finite model)')
     rep.clauses_decided += ['both explorations terminate and enqueue exactly the unseen pairs (R-WORK W2)',
                             'the relation built is checked in both directions: functional and injective (R-SYM)']
     rep.not_decided += ['that a passing exploration decides isomorphism of the reachable parts']
